@@ -126,12 +126,15 @@ pub fn check_seq(ops: &[Op], srcs: &[Src], src_bytes: &[Vec<u8>], seed: u64, st:
         return;
     }
     st.distinct_hash(fnv(&bytes));
-    let parsed = match zipparse::validate(&bytes, &Opts::strict()) {
+    // structural validity of the destination is C02's statement: counted here, judged there
+    if zipparse::validate(&bytes, &Opts::strict()).is_err() {
+        st.count("note_destination_not_strictly_valid(C02)", 1);
+    }
+    let parsed = match zipparse::parse(&bytes, &Opts::lenient()) {
         Ok(p) => p,
         Err(e) => {
-            // a source with a wrong CRC (method 14 payload is opaque) cannot be decoded: strict validation skips undecodable methods
-            st.class("INVALID");
-            st.viol(format!("rawcopy/invalid-archive/{}", e.clause), format!("destination archive fails strict validation: {e}"), case(), order);
+            st.class("UNPARSABLE");
+            st.viol(format!("rawcopy/unparsable/{}", e.clause), format!("destination archive cannot be parsed independently: {e}"), case(), order);
             return;
         }
     };
